@@ -187,7 +187,7 @@ def main(chk):
             ids = [i.id for i in pop.insts]
             variant = VARIANTS[pi % len(VARIANTS)]
             text = gen_p21.render(pop, variant, rng)
-            for order in load_orders(ids, rng, 1 if quick else 3):
+            for order in load_orders(ids, rng, 4 if quick else 6):
                 cases.append((lib, pop, text, order, variant))
 
     def work(c):
